@@ -149,7 +149,9 @@ func newWorld() (*world, packetkeeper.Keeper, sdk.Context) {
 	w := &world{self: name("self"), status: map[string]exported.Status{}}
 	n := vp.Choice("nclients", 3)
 	for i := 0; i < n; i++ {
-		w.clients = append(w.clients, name("client"))
+		c := name("client")
+		vp.Assume(c != w.self) // invariant: a chain keeps no light client of itself
+		w.clients = append(w.clients, c)
 	}
 	w.auth = vp.Bool("route.allowed")
 	ctx := vp.Ctx()
